@@ -16,24 +16,43 @@ StarRow == Slot("stars", 74, 0)
 W0(b) == Width(b)
 HL(k, bd) == Line(k, "IsComment", <<L("/* ", 3)>> \o bd \o <<Sp(74 - W0(bd))>> \o <<L(" */", 3)>>)
 
-(* shape: lengths of file name, login, mail domain *)
+(* shape: lengths of file name, login, mail domain.  The template (stdheader.vim: margin 5, text width 80) writes each *)
+(* row as "/*" + 3 blanks + the left text CLIPPED and padded to 45 columns + a 25-column row of the ASCII art + 3 blanks *)
+(* + "*/": a long login or mail domain loses the end of the By line (the closing ">" first), a long login the end of    *)
+(* the Created / Updated lines, a long file name its end.                                                              *)
 Shapes == IF HLevel = 1 THEN {[f |-> 3, l |-> 1, d |-> 4], [f |-> 10, l |-> 6, d |-> 13], [f |-> 41, l |-> 9, d |-> 15],
-                              [f |-> 25, l |-> 8, d |-> 20], [f |-> 6, l |-> 9, d |-> 4]}
-          ELSE {s \in [f : {3, 6, 10, 17, 25, 33, 41}, l : 1..9, d : {4, 9, 13, 17, 20}] : 6 + 2 * s.l + s.d <= 41}
+                              [f |-> 25, l |-> 8, d |-> 20], [f |-> 6, l |-> 9, d |-> 4],
+                              [f |-> 10, l |-> 8, d |-> 21],      \* the By text is 45 columns: fits exactly
+                              [f |-> 6, l |-> 9, d |-> 21],       \* 47: the ">" and one character of the domain are clipped
+                              [f |-> 3, l |-> 13, d |-> 13],      \* clipped inside the domain; Created/Updated fit exactly
+                              [f |-> 10, l |-> 19, d |-> 4],      \* nothing of the domain is left; Created/Updated clip the login
+                              [f |-> 47, l |-> 6, d |-> 13]}      \* the file name is clipped
+          ELSE [f : {3, 6, 10, 17, 25, 33, 41, 45, 47}, l : (1..9) \cup {13, 14, 19, 22}, d : {4, 9, 13, 17, 20, 21, 26}]
 
 FrameLine == Line("h_frame", "IsComment", <<L("/* ", 3), StarRow, L(" */", 3)>>)
 BlankLine == HL("h_blank", <<>>)
+SpZ(n) == IF n > 0 THEN <<Sp(n)>> ELSE <<>>
+Min(a, b) == IF a < b THEN a ELSE b
+(* one row: left text (already clipped to at most 45 columns) + art row (lead blanks, art, trailing blanks = 25 columns) *)
+Row(k, left, lead, art) == Line(k, "IsComment", <<L("/*", 2), Sp(3)>> \o left \o SpZ(45 - Width(left)) \o SpZ(lead) \o <<art>>
+                                                 \o SpZ(25 - lead - art.w) \o <<Sp(3), L("*/", 2)>>)
+ByLeft(s) == LET T == 8 + 2 * s.l + s.d IN
+             IF T <= 45 THEN <<L("By: ", 4), Slot("login", s.l, 0), L(" <", 2), Slot("login", s.l, 0), L("@", 1), Slot("domain", s.d, 0), L(">", 1)>>
+             ELSE IF 7 + 2 * s.l < 45
+                  THEN <<L("By: ", 4), Slot("login", s.l, 0), L(" <", 2), Slot("login", s.l, 0), L("@", 1), Slot("domain", 45 - (7 + 2 * s.l), 0)>>
+                  ELSE IF 7 + 2 * s.l = 45 THEN <<L("By: ", 4), Slot("login", s.l, 0), L(" <", 2), Slot("login", s.l, 0), L("@", 1)>>
+                  ELSE <<L("By: ", 4), Slot("login", s.l, 0), L(" <", 2), Slot("login", 45 - (6 + s.l), 0)>>
+StampLeft(word, n, s) == <<L(word, 9), Slot("date", 19, n), L(" by ", 4), Slot("login", Min(s.l, 13), 0)>>
 Hdr(s) ==
   << FrameLine,
      BlankLine,
-     HL("h_art", <<Sp(56), L(":::      ::::::::", 17)>>),
-     HL("h_file", <<Sp(2), Slot("hfile", s.f, 0), Sp(51 - s.f), L(":+:      :+:    :+:", 19)>>),
-     HL("h_art", <<Sp(52), L("+:+ +:+         +:+", 19)>>),
-     HL("h_by", <<Sp(2), L("By: ", 4), Slot("login", s.l, 0), L(" <", 2), Slot("login", s.l, 0), L("@", 1), Slot("domain", s.d, 0), L(">", 1),
-                  Sp(43 - (8 + 2 * s.l + s.d)), L("+#+  +:+       +#+", 18)>>),
-     HL("h_art", <<Sp(48), L("+#+#+#+#+#+   +#+", 17)>>),
-     HL("h_created", <<Sp(2), L("Created: ", 9), Slot("date", 19, 1), L(" by ", 4), Slot("login", s.l, 0), Sp(49 - (32 + s.l)), L("#+#    #+#", 10)>>),
-     HL("h_updated", <<Sp(2), L("Updated: ", 9), Slot("date", 19, 2), L(" by ", 4), Slot("login", s.l, 0), Sp(48 - (32 + s.l)), L("###   ########.fr", 17)>>),
+     Row("h_art", <<>>, 8, L(":::      ::::::::", 17)),
+     Row("h_file", <<Slot("hfile", Min(s.f, 45), 0)>>, 6, L(":+:      :+:    :+:", 19)),
+     Row("h_art", <<>>, 4, L("+:+ +:+         +:+", 19)),
+     Row("h_by", ByLeft(s), 2, L("+#+  +:+       +#+", 18)),
+     Row("h_art", <<>>, 0, L("+#+#+#+#+#+   +#+", 17)),
+     Row("h_created", StampLeft("Created: ", 1, s), 5, L("#+#    #+#", 10)),
+     Row("h_updated", StampLeft("Updated: ", 2, s), 4, L("###   ########.fr", 17)),
      BlankLine,
      FrameLine >>
 
